@@ -29,7 +29,7 @@ fn any_message(_env: &Env) -> Message {
 // ---- representation-independent history: the state is built and observed ONLY through public entry
 // points (no storage key or value type of the gateway is named), so a change of the storage layout
 // is judged on its behaviour instead of failing to compile.
-// HARNESS props=C02 tier=quick profile=gw_hist shape="history: approve A; maybe consume A; then observe / approve an arbitrary B (same or different chain/id split, same or different content); strings <=2 bytes"
+// HARNESS props=C02 tier=thorough profile=gw_hist shape="history: approve A; maybe consume A; then observe / approve an arbitrary B (same or different chain/id split, same or different content); strings <=2 bytes"
 #[kani::proof]
 #[kani::stub(crate::auth::validate_proof, stub_validate_proof)]
 fn c02_history_public_api() {
@@ -48,7 +48,7 @@ fn msg_exact(lc: usize, li: usize) -> Message {
         payload_hash: any::b32(1),
     }
 }
-// HARNESS props=C02 tier=quick profile=gw_hist shape="history with fixed lengths: A = (chain 1 byte, id 2 bytes), B = (chain 2 bytes, id 1 byte) — the 'same characters, different split' pair; all bytes symbolic"
+// HARNESS props=C02 tier=thorough profile=gw_hist shape="history with fixed lengths: A = (chain 1 byte, id 2 bytes), B = (chain 2 bytes, id 1 byte) — the 'same characters, different split' pair; all bytes symbolic"
 #[kani::proof]
 #[kani::stub(crate::auth::validate_proof, stub_validate_proof)]
 fn c02_history_split_shape() {
@@ -58,7 +58,7 @@ fn c02_history_split_shape() {
     c02_history(env, a, b);
     kani::cover!(true, "VERIF:reach:history explored");
 }
-// HARNESS props=C02 tier=quick profile=gw_hist shape="history with fixed lengths: A and B both (chain 2, id 2) — same or different id, same or different content"
+// HARNESS props=C02 tier=thorough profile=gw_hist shape="history with fixed lengths: A and B both (chain 2, id 2) — same or different id, same or different content"
 #[kani::proof]
 #[kani::stub(crate::auth::validate_proof, stub_validate_proof)]
 fn c02_history_same_shape() {
